@@ -620,12 +620,24 @@ pub fn run(ctx: &Ctx) -> Report {
             }
         }
     }
+    // css selectors that are chains of 1 .. 50000 sibling / descendant combinators over a body matching them link by link (selector
+    // matching recurses once per combinator; the descendant variant also nests the body, which the tree builder bounds itself)
+    for variant in 2..4u32 {
+        for len in [1u64, 100, 128, 2000, 10_000, 50_000] {
+            for profile in ["release", "unoptimised"] {
+                if variant == 3 && len > 2000 {
+                    continue;
+                }
+                probes.push(ProbeCase { kind: "selector".into(), index: variant, len, profile: profile.into(), stack_kib: 2048 });
+            }
+        }
+    }
     // the logger initialisers called twice, in the four orders
     for variant in 0..4u32 {
         probes.push(ProbeCase { kind: "loginit".into(), index: variant, len: 0, profile: "release".into(), stack_kib: 2048 });
     }
     let n = probes.len() as u64;
-    let r = run_enum(ctx, "probes", n, true, &format!("{n} child-process probes: the two logger initialisers twice in their four orders, css selectors nested up to 5000 levels x {{optimised, unoptimised}}, extern C null matrix (exhaustive), long raw-text elements x 6 variants x sizes {:?} x {{optimised, unoptimised}}, routers of {:?} nested-prefix rules (path, host) x {{optimised, unoptimised}}", sizes, nested), |i| Some(probes[i as usize].clone()), check_probe, &[KnownSig { name: D12, pred: is_d12 }, KnownSig { name: D34, pred: is_d34 }]);
+    let r = run_enum(ctx, "probes", n, true, &format!("{n} child-process probes: the two logger initialisers twice in their four orders, css selectors nested up to 5000 levels and chains of up to 50000 combinators x {{optimised, unoptimised}}, extern C null matrix (exhaustive), long raw-text elements x 6 variants x sizes {:?} x {{optimised, unoptimised}}, routers of {:?} nested-prefix rules (path, host) x {{optimised, unoptimised}}", sizes, nested), |i| Some(probes[i as usize].clone()), check_probe, &[KnownSig { name: D12, pred: is_d12 }, KnownSig { name: D34, pred: is_d34 }]);
     rep.add(r);
     rep
 }
